@@ -220,6 +220,18 @@ func c14Run(w *W, idx int) {
 	switch {
 	case k < 5:
 		tree, strat = c13Tree(r, r.Intn(8))
+		if r.Intn(3) == 0 {
+			// variable names of non-ASCII letters (several bytes per character)
+			ren := map[string]string{"b0": "наличие", "b1": "größe.ok", "b2": "日本語", "b3": "ünï", "b4": "π", "i0": "счёт", "i1": "número", "s0": "имя"}
+			tree.Walk(func(n *Node) {
+				if n.Kind == KVar {
+					if nn, ok := ren[n.Name]; ok {
+						n.Name = nn
+					}
+				}
+			})
+			w.Inc("programs_with_non_ascii_variable_names")
+		}
 		src = tree.Prefix()
 	case k < 8:
 		g := stratumByName("mixed").Make(r)
